@@ -382,35 +382,49 @@ DROPPERS = re.compile(r"core::result::Result::<T, E>::(ok|err|unwrap_or|unwrap_o
 PANICKERS = re.compile(r"core::result::Result::<T, E>::(unwrap|expect)$")
 
 
-def _uses_of_local(func, l, start_block):
-    """(block, kind, obj) uses of whole local l reachable from start_block"""
-    g = cfg_of(func)
+def _uses_of_local(func, l, start_block, after_stmt=None):
+    """(block, kind, obj) uses of whole local l reachable from start_block (from the statement after `after_stmt` when
+    given).  A path that reaches a new definition of l without any use other than a drop reports kind "overwritten"."""
     seen = set()
-    st = [start_block] if start_block is not None else []
+    st = [(start_block, False, after_stmt, False)] if start_block is not None else []
     out = []
     while st:
-        b = st.pop()
-        if b in seen:
+        b, used, skip, superseded = st.pop()
+        if superseded:
+            used = True        # discarded where another, earlier error is known to be pending: not a loss
+        if (b, used) in seen and skip is None:
             continue
-        seen.add(b)
+        if skip is None:
+            seen.add((b, used))
         blk = func.blocks[b]
         redefined = False
         for s in blk["stmts"]:
+            if skip is not None:
+                if s is skip:
+                    skip = None
+                continue
             if s["k"] == "assign":
                 if _rv_mentions(s["rv"], l):
                     out.append((b, "stmt", s))
+                    used = True
                 if s["pl"]["l"] == l and not s["pl"]["p"]:
                     redefined = True
+                    if not used:
+                        out.append((b, "overwritten", s))
                     break
                 if s["pl"]["l"] == l and s["pl"]["p"]:
                     out.append((b, "stmt", s))
+                    used = True
         if redefined:
             continue
         t = blk["term"]
         if t["k"] == "call":
             if any(_op_mentions(a, l) for a in t["args"]):
                 out.append((b, "call", t))
+                used = True
             if t["dest"]["l"] == l and not t["dest"]["p"]:
+                if not used:
+                    out.append((b, "overwritten", t))
                 continue
         elif t["k"] == "drop":
             if t["pl"]["l"] == l:
@@ -418,9 +432,54 @@ def _uses_of_local(func, l, start_block):
         elif t["k"] == "switch":
             if _op_mentions(t["discr"], l):
                 out.append((b, "switch", t))
-        for s2 in succs(t):
-            st.append(s2)
+                used = True
+        if t["k"] == "switch":
+            arms = _other_error_arms(func, t, l)
+            for s2 in succs(t):
+                st.append((s2, used, None, s2 in arms))
+        else:
+            for s2 in succs(t):
+                st.append((s2, used, None, False))
     return out
+
+
+def _other_error_arms(func, t, l):
+    """successor blocks of switch `t` that are taken only when some *other* Result local is an Err
+    (`if other.is_ok()` false arm, `if other.is_err()` true arm, the Err arm of a match on it)"""
+    d = t["discr"]
+    if d["k"] not in ("copy", "move") or d["pl"]["p"]:
+        return set()
+    dl = d["pl"]["l"]
+    kind, src = None, None
+    for b in func.blocks:
+        for s in b["stmts"]:
+            if s["k"] == "assign" and s["pl"]["l"] == dl and not s["pl"]["p"] and s["rv"]["k"] == "discr":
+                if s["rv"]["pl"].get("ty", "").startswith("core::result::Result<") or True:
+                    kind, src = "discr", s["rv"]["pl"]
+        tt = b["term"]
+        if tt["k"] == "call" and not tt.get("indirect") and tt["dest"]["l"] == dl and not tt["dest"]["p"]:
+            m = re.search(r"core::result::Result::<T, E>::(is_ok|is_err)$", tt["callee"])
+            if m and tt["args"] and tt["args"][0]["k"] in ("copy", "move"):
+                rl = tt["args"][0]["pl"]["l"]
+                for b2 in func.blocks:
+                    for s in b2["stmts"]:
+                        if s["k"] == "assign" and s["pl"]["l"] == rl and not s["pl"]["p"] and s["rv"]["k"] == "ref":
+                            kind, src = m.group(1), s["rv"]["pl"]
+    if kind is None or src is None or src["l"] == l:
+        return set()
+    ty = src.get("ty", "")
+    if kind == "discr" and not ty.startswith("core::result::Result<"):
+        return set()
+    vals = {tb: v for v, tb in t["targets"]}
+    out = set()
+    if kind == "is_ok":
+        out = {tb for tb, v in vals.items() if v == 0}
+    elif kind == "is_err":
+        if t["otherwise"] not in vals and all(v == 0 for v in vals.values()):
+            out = {t["otherwise"]}
+    elif kind == "discr":
+        out = {tb for tb, v in vals.items() if v == 1}
+    return out - ({t["otherwise"]} if kind == "is_ok" else set())
 
 
 def _op_mentions(o, l):
@@ -442,15 +501,18 @@ def _rv_mentions(rv, l):
     return False
 
 
-def _fate_of_local(F, func, l, start, visiting, depth):
+def _fate_of_local(F, func, l, start, visiting, depth, after=None):
     if depth > 12 or (l, start) in visiting:
         return "unknown:depth"
     visiting = visiting | {(l, start)}
-    uses = _uses_of_local(func, l, start)
+    uses = _uses_of_local(func, l, start, after)
     fates = []
     for b, kind, x in uses:
         if kind == "drop":
             continue
+        if kind == "overwritten":
+            # a later value replaces this one on a path where nothing looked at it (a loop that keeps the last result only)
+            return "dropped:overwritten-before-checked"
         if kind == "call":
             c = x.get("callee", "")
             decl = x.get("decl", "")
@@ -474,9 +536,9 @@ def _fate_of_local(F, func, l, start, visiting, depth):
                 # match on the result: look at what the Err arm does
                 fates.append(_match_fate(F, func, b, x, l))
             elif rv["k"] == "use" and not x["pl"]["p"]:
-                fates.append(_fate_of_local(F, func, x["pl"]["l"], b, visiting, depth + 1))
+                fates.append(_fate_of_local(F, func, x["pl"]["l"], b, visiting, depth + 1, after=x))
             elif rv["k"] == "ref":
-                fates.append(_fate_of_local(F, func, x["pl"]["l"], b, visiting, depth + 1))
+                fates.append(_fate_of_local(F, func, x["pl"]["l"], b, visiting, depth + 1, after=x))
             elif rv["k"] == "agg":
                 fates.append("stored")
             else:
